@@ -124,6 +124,20 @@ func genC17(g *Gen) {
 			allSizes(c16SortDedup(ks), "shape-chain")
 		}
 	}
+	// (2b) long keys: key lengths and shared prefixes around 2^8 and 2^13 bytes (bit positions around
+	// 2^11 and 2^16), and one key beyond 2^16 bytes -- a length or bit position kept in a narrower
+	// integer shows here only
+	{
+		for _, pl := range []int{254, 255, 256, 257, 300, 8191, 8192, 8193} {
+			al := [][]byte{{'a', 'b'}, {0x00, 0x80, 0xff}}[g.R.Intn(2)]
+			p := string(g.R.Bytes(pl, al))
+			allSizes([]string{p}, "shape-long")
+			allSizes(c16SortDedup([]string{p[:pl-1], p, p + "\x00", p + "a", p + "ab"}), "shape-long")
+		}
+		big := strings.Repeat("a", 65537)
+		allSizes([]string{big}, "shape-long")
+		allSizes([]string{big[:65536], "b"}, "shape-long")
+	}
 	// (3) structured random key sets
 	nb := g.N(500, 10000)
 	for k := 0; k < nb; k++ {
